@@ -412,6 +412,52 @@ func checkC08(c *Ctx) {
 			ok = ok && waits
 		}
 		c.Check(ok, "R3", "delay-runs-handler", p.Pos(delayFn.Pos()), "handler invoked on the not-cancelled edge; result awaited", "the delay helper does not run the handler it is given (unless cancelled) and wait for it")
+		// the time bank holds ONE task: whoever else arms (or cancels) the same bank while the continue
+		// handler is pending cancels it — the handler then returns on its cancelled edge and the table
+		// neither pauses nor deals on. The delay helper is the bank's only user.
+		var bank *Sym
+		for _, ci := range Calls(delayFn) {
+			if calleeName(ci.Common()) == "timebank.TimeBank.NewTask" {
+				bank = p.Sym(ci.Common().Args[0]).Strip()
+			}
+		}
+		if bank != nil && bank.Kind == "field" {
+			nOther := 0
+			for _, f := range p.Funcs {
+				if !inModule(p, f) || f == delayFn {
+					continue
+				}
+				for _, ci := range Calls(f) {
+					n := calleeName(ci.Common())
+					if n != "timebank.TimeBank.NewTask" && n != "timebank.TimeBank.NewTaskWithDeadline" && n != "timebank.TimeBank.Cancel" {
+						continue
+					}
+					r := p.Sym(ci.Common().Args[0]).Strip()
+					if r.Kind != "field" || r.Owner != bank.Owner || r.Name != bank.Name {
+						continue
+					}
+					if n == "timebank.TimeBank.Cancel" {
+						// cancelling is how a closing table drops its pending step: tolerated where the same function ends the table
+						ends := false
+						for _, ss := range p.Stores([]*ssa.Function{f}) {
+							if v, isS := ss.Val.ConstString(); (ss.Owner == "TableState" && ss.Field == "Status" && isS && v == "table_closed") || (ss.Owner == "tableEngine" && ss.Field == "isReleased") {
+								ends = true
+							}
+						}
+						if ends {
+							continue
+						}
+					}
+					nOther++
+					c.Bad("R3", "continue-timer:sole-user:"+FuncName(f), p.InstrPos(ci), FuncName(f)+" uses the time bank ("+bank.Name+") that carries the pending continue handler ("+strings.TrimPrefix(n, "timebank.TimeBank.")+"): the bank holds one task, so a handler waiting there is cancelled and the table is left neither paused nor dealing")
+				}
+			}
+			if nOther == 0 {
+				c.Ok("R3", "continue-timer:sole-user", p.Pos(delayFn.Pos()), "only the delay helper arms or cancels "+bank.Name)
+			}
+		} else {
+			c.Bad("R3", "continue-timer:sole-user", p.Pos(delayFn.Pos()), "the delay helper's time bank is not a field of the engine")
+		}
 	} else {
 		c.Bad("R3", "delay-runs-handler", "-", "delay helper not found")
 	}
